@@ -59,276 +59,283 @@ def run(ck):
     R9 = ck.rule('R04.9', "Timer / InputExp tables: every timed event of a timed state is a Goto "
                  "or has a transition defined from that state", 'tables', 2)
 
-    st, sp, stt, init = m.get('_set_timer'), m.get('_stop_timer'), m.get('_start_timer'), m.get('__init__')
-    ck.need(R1, st and sp and stt and init, "FSM timer methods not found")
+    with ck.section('R04.1'):
+        st, sp, stt, init = m.get('_set_timer'), m.get('_stop_timer'), m.get('_start_timer'), m.get('__init__')
+        ck.need(R1, st and sp and stt and init, "FSM timer methods not found")
 
-    # ------------------------------------------------------------------ R04.1 / R04.8
-    g = ck.cfg(st.fid, 'M0')
-    cl = nodes_where(g, lambda n: any(call_name(c) in ('call_later', 'call_at') for c in node_calls(n)))
-    ck.need(R1, len(cl) == 1, "_set_timer: call_later site not recognised")
-    stored = isinstance(cl[0].ast, ast.Assign) and norm(cl[0].ast.targets[0]) == 'self._active_timer'
-    ck.ob(R1, f"{st.fid} :: handle stored", stored,
-          "self._active_timer = <loop>.call_later(...)" if stored else
-          "the TimerHandle is not stored (it could never be cancelled)", st, cl[0].ast)
-    call = [c for c in node_calls(cl[0]) if call_name(c) in ('call_later', 'call_at')][0]
-    cb = call.args[1] if len(call.args) >= 2 else None
-    cbname = cb.attr if isinstance(cb, ast.Attribute) and norm(cb.value) == 'self' else None
-    dur_ok = norm(call.args[0]) == st.node.args.args[1].arg and \
-        [norm(a) for a in call.args[2:]] == [st.node.args.args[2].arg]
-    ck.ob(R1, f"{st.fid} :: scheduled with the given duration and event", dur_ok,
-          "call_later(duration, <callback>, timed_event)" if dur_ok else
-          "the timer is not scheduled with _set_timer's duration / timed event", st, cl[0].ast)
-    writers = {init.fid: 'None', st.fid: 'the handle', sp.fid: 'None after cancelling'}
-    expiry = None
-    if cbname and cbname != 'event':
-        expiry = prog.resolve_method(fsm, cbname)
-        if expiry is not None:
-            writers[expiry.fid] = 'None when the timer has fired'
-    own(ck, R1, '_active_timer', writers)
-    n_sched = 0
-    for fi in prog.pkg_funcs(include_demo=False):     # demo.py: interactive CLI tool, out of scope
-        for c in [x for x in own_nodes(fi.node) if isinstance(x, ast.Call)]:
-            if call_name(c) in ('call_later', 'call_at'):
-                n_sched += 1
-                ok = fi.fid == st.fid
-                ck.ob(R1, f"{fi.fid} :: {call_name(c)}", ok,
-                      "the FSM timer" if ok else
-                      "a timer is scheduled outside FSM._set_timer: nothing cancels it when the "
-                      "simulation stops", fi, c)
-            if call_name(c) in ('call_soon', 'call_soon_threadsafe') or \
-                    (isinstance(c.func, ast.Name) and c.func.id == 'call_soon'):
-                ok = fi.fid == 'simulator:_TerminatingSignal._handler'
-                ck.ob(R1, f"{fi.fid} :: {norm1(c)}", ok,
-                      "signal hand-over to abort()" if ok else
-                      "an undocumented call_soon: work scheduled outside the simulator's control",
-                      fi, c)
-    # R04.8
-    if cbname == 'event':
-        gs = prog.resolve_method(fsm, 'get_state')
-        reads_when = any(isinstance(x, ast.Call) and call_name(x) == 'time' for x in own_nodes(gs.node)) \
-            and any(isinstance(x, ast.Compare) and 'when()' in norm(x) for x in own_nodes(gs.node))
-        ck.ob(R8, f"{st.fid} :: fired handle forgotten", reads_when,
-              "get_state() compares when() with the loop clock" if reads_when else
-              "the timer calls self.event directly and nothing clears _active_timer when it "
-              "fires: after a rejected timed event get_state() reports a past expiry as pending",
-              st, cl[0].ast)
-    else:
-        ck.need(R8, expiry is not None, f"timer callback self.{cbname} not found")
-        ge = ck.cfg(expiry.fid, 'M0')
-        clears = [w for w in nodes_writing_attr(ge, '_active_timer')
-                  if is_const(written_value(w, '_active_timer'), None)]
-        deliver = nodes_where(ge, lambda n: any(call_name(c) == 'event' and recv(c) == 'self'
-                                                for c in node_calls(n)))
-        ok = bool(clears) and bool(deliver) and \
-            all(ge.path_avoiding(ge.entry, [d], avoid=clears) is None for d in deliver) and \
-            must_pass(ge, ge.entry, deliver, [ge.exit]) is None
-        ck.ob(R8, f"{st.fid} :: fired handle forgotten", ok,
-              f"{expiry.fid} clears _active_timer, then delivers the event through self.event()"
-              if ok else f"{expiry.fid} does not clear the handle before (or does not) deliver "
-              "the timed event through self.event()", expiry, expiry.node)
-        if deliver:
-            c = [c for c in node_calls(deliver[0]) if call_name(c) == 'event'][0]
-            ok = [norm(a) for a in c.args] == [expiry.node.args.args[1].arg] and not c.keywords
-            ck.ob(R8, f"{expiry.fid} :: delivers the timed event", ok,
-                  "self.event(timed_event): the normal guarded entry point" if ok else
-                  "the expiry callback does not deliver exactly the scheduled timed event",
-                  expiry, deliver[0].ast)
+        # ------------------------------------------------------------------ R04.1 / R04.8
+        g = ck.cfg(st.fid, 'M0')
+        cl = nodes_where(g, lambda n: any(call_name(c) in ('call_later', 'call_at') for c in node_calls(n)))
+        ck.need(R1, len(cl) == 1, "_set_timer: call_later site not recognised")
+        stored = isinstance(cl[0].ast, ast.Assign) and norm(cl[0].ast.targets[0]) == 'self._active_timer'
+        ck.ob(R1, f"{st.fid} :: handle stored", stored,
+              "self._active_timer = <loop>.call_later(...)" if stored else
+              "the TimerHandle is not stored (it could never be cancelled)", st, cl[0].ast)
+        call = [c for c in node_calls(cl[0]) if call_name(c) in ('call_later', 'call_at')][0]
+        cb = call.args[1] if len(call.args) >= 2 else None
+        cbname = cb.attr if isinstance(cb, ast.Attribute) and norm(cb.value) == 'self' else None
+        dur_ok = norm(call.args[0]) == st.node.args.args[1].arg and \
+            [norm(a) for a in call.args[2:]] == [st.node.args.args[2].arg]
+        ck.ob(R1, f"{st.fid} :: scheduled with the given duration and event", dur_ok,
+              "call_later(duration, <callback>, timed_event)" if dur_ok else
+              "the timer is not scheduled with _set_timer's duration / timed event", st, cl[0].ast)
+        writers = {init.fid: 'None', st.fid: 'the handle', sp.fid: 'None after cancelling'}
+        expiry = None
+        if cbname and cbname != 'event':
+            expiry = prog.resolve_method(fsm, cbname)
+            if expiry is not None:
+                writers[expiry.fid] = 'None when the timer has fired'
+        own(ck, R1, '_active_timer', writers)
+        n_sched = 0
+        for fi in prog.pkg_funcs(include_demo=False):     # demo.py: interactive CLI tool, out of scope
+            for c in [x for x in own_nodes(fi.node) if isinstance(x, ast.Call)]:
+                if call_name(c) in ('call_later', 'call_at'):
+                    n_sched += 1
+                    ok = fi.fid == st.fid
+                    ck.ob(R1, f"{fi.fid} :: {call_name(c)}", ok,
+                          "the FSM timer" if ok else
+                          "a timer is scheduled outside FSM._set_timer: nothing cancels it when the "
+                          "simulation stops", fi, c)
+                if call_name(c) in ('call_soon', 'call_soon_threadsafe') or \
+                        (isinstance(c.func, ast.Name) and c.func.id == 'call_soon'):
+                    ok = fi.fid == 'simulator:_TerminatingSignal._handler'
+                    ck.ob(R1, f"{fi.fid} :: {norm1(c)}", ok,
+                          "signal hand-over to abort()" if ok else
+                          "an undocumented call_soon: work scheduled outside the simulator's control",
+                          fi, c)
+        # R04.8
+        if cbname == 'event':
+            gs = prog.resolve_method(fsm, 'get_state')
+            reads_when = any(isinstance(x, ast.Call) and call_name(x) == 'time' for x in own_nodes(gs.node)) \
+                and any(isinstance(x, ast.Compare) and 'when()' in norm(x) for x in own_nodes(gs.node))
+            ck.ob(R8, f"{st.fid} :: fired handle forgotten", reads_when,
+                  "get_state() compares when() with the loop clock" if reads_when else
+                  "the timer calls self.event directly and nothing clears _active_timer when it "
+                  "fires: after a rejected timed event get_state() reports a past expiry as pending",
+                  st, cl[0].ast)
+        else:
+            ck.need(R8, expiry is not None, f"timer callback self.{cbname} not found")
+            ge = ck.cfg(expiry.fid, 'M0')
+            clears = [w for w in nodes_writing_attr(ge, '_active_timer')
+                      if is_const(written_value(w, '_active_timer'), None)]
+            deliver = nodes_where(ge, lambda n: any(call_name(c) == 'event' and recv(c) == 'self'
+                                                    for c in node_calls(n)))
+            ok = bool(clears) and bool(deliver) and \
+                all(ge.path_avoiding(ge.entry, [d], avoid=clears) is None for d in deliver) and \
+                must_pass(ge, ge.entry, deliver, [ge.exit]) is None
+            ck.ob(R8, f"{st.fid} :: fired handle forgotten", ok,
+                  f"{expiry.fid} clears _active_timer, then delivers the event through self.event()"
+                  if ok else f"{expiry.fid} does not clear the handle before (or does not) deliver "
+                  "the timed event through self.event()", expiry, expiry.node)
+            if deliver:
+                c = [c for c in node_calls(deliver[0]) if call_name(c) == 'event'][0]
+                ok = [norm(a) for a in c.args] == [expiry.node.args.args[1].arg] and not c.keywords
+                ck.ob(R8, f"{expiry.fid} :: delivers the timed event", ok,
+                      "self.event(timed_event): the normal guarded entry point" if ok else
+                      "the expiry callback does not deliver exactly the scheduled timed event",
+                      expiry, deliver[0].ast)
 
-    # ------------------------------------------------------------------ R04.2
-    g = ck.cfg(sp.fid, 'M0')
-    cancels = nodes_calling(g, 'cancel')
-    forgets = [w for w in nodes_writing_attr(g, '_active_timer')
-               if is_const(written_value(w, '_active_timer'), None)]
-    live = [n for n in g.nodes if n.kind == 'branch' and n.polarity and
-            'is not None' in norm(n.test.ast) and '_active_timer' in norm(n.test.ast)]
-    ck.need(R2, live, "_stop_timer: the 'timer exists' test was not recognised")
-    p = must_pass(g, live[0], forgets, [g.exit])
-    ck.ob(R2, f"{sp.fid} :: handle forgotten", p is None and bool(forgets),
-          "_active_timer = None on every path with a live handle" if p is None and forgets else
-          "a live handle can survive _stop_timer", sp, sp.node, witness=path_witness(g, p))
-    skip = [n for n in g.nodes if n.kind == 'branch' and 'cancelled()' in norm(n.test.ast) and
-            ((n.polarity and 'not' not in norm(n.test.ast)) or
-             (not n.polarity and norm(n.test.ast).startswith('not ')))]
-    p = g.path_avoiding(live[0], [g.exit], avoid=cancels + skip)
-    ck.ob(R2, f"{sp.fid} :: cancel", p is None and bool(cancels),
-          "a handle that is not yet cancelled is cancelled" if p is None and cancels else
-          "a pending timer is forgotten without being cancelled (a stale timed event would fire)",
-          sp, cancels[0].ast if cancels else sp.node, witness=path_witness(g, p))
+    with ck.section('R04.2'):
+        # ------------------------------------------------------------------ R04.2
+        g = ck.cfg(sp.fid, 'M0')
+        cancels = nodes_calling(g, 'cancel')
+        forgets = [w for w in nodes_writing_attr(g, '_active_timer')
+                   if is_const(written_value(w, '_active_timer'), None)]
+        live = [n for n in g.nodes if n.kind == 'branch' and n.polarity and
+                'is not None' in norm(n.test.ast) and '_active_timer' in norm(n.test.ast)]
+        ck.need(R2, live, "_stop_timer: the 'timer exists' test was not recognised")
+        p = must_pass(g, live[0], forgets, [g.exit])
+        ck.ob(R2, f"{sp.fid} :: handle forgotten", p is None and bool(forgets),
+              "_active_timer = None on every path with a live handle" if p is None and forgets else
+              "a live handle can survive _stop_timer", sp, sp.node, witness=path_witness(g, p))
+        skip = [n for n in g.nodes if n.kind == 'branch' and 'cancelled()' in norm(n.test.ast) and
+                ((n.polarity and 'not' not in norm(n.test.ast)) or
+                 (not n.polarity and norm(n.test.ast).startswith('not ')))]
+        p = g.path_avoiding(live[0], [g.exit], avoid=cancels + skip)
+        ck.ob(R2, f"{sp.fid} :: cancel", p is None and bool(cancels),
+              "a handle that is not yet cancelled is cancelled" if p is None and cancels else
+              "a pending timer is forgotten without being cancelled (a stale timed event would fire)",
+              sp, cancels[0].ast if cancels else sp.node, witness=path_witness(g, p))
 
-    # ------------------------------------------------------------------ R04.3
-    ctx = m['_ctx_event']
-    g = ck.cfg(ctx.fid, 'M0')
-    acq = [w for w in nodes_writing_attr(g, '_fsm_event_active')
-           if is_const(written_value(w, '_fsm_event_active'), True)]
-    ck.need(R3, acq, "_ctx_event: acquire not recognised")
-    state_w = nodes_writing_attr(g, '_state')
-    stops = nodes_calling(g, '_stop_timer')
-    starts = nodes_calling(g, '_start_timer')
-    init_branch = [n for n in g.nodes if n.kind == 'branch' and n.polarity and
-                   norm(n.test.ast) == 'self.is_initialized()' and g.dominates(acq[0], n)]
-    ck.need(R3, init_branch, "_ctx_event: the is_initialized() branch was not recognised")
-    p = g.path_avoiding(init_branch[0], state_w, avoid=stops)
-    ck.ob(R3, f"{ctx.fid} :: stop before the state changes", p is None and bool(stops),
-          "an initialised FSM stops its timer before any state write" if p is None and stops else
-          "the state can change while the old state's timer keeps running (a stale timed event "
-          "would be delivered)", ctx, stops[0].ast if stops else ctx.node, witness=path_witness(g, p))
-    p = g.path_avoiding(acq[0], starts, avoid=state_w)
-    ck.ob(R3, f"{ctx.fid} :: start only after the state write", p is None,
-          "a timer is started only for the newly entered state" if p is None else
-          "a timer can be started before the new state is entered", ctx,
-          starts[0].ast if starts else ctx.node, witness=path_witness(g, p))
+    with ck.section('R04.3'):
+        # ------------------------------------------------------------------ R04.3
+        ctx = m['_ctx_event']
+        g = ck.cfg(ctx.fid, 'M0')
+        acq = [w for w in nodes_writing_attr(g, '_fsm_event_active')
+               if is_const(written_value(w, '_fsm_event_active'), True)]
+        ck.need(R3, acq, "_ctx_event: acquire not recognised")
+        state_w = nodes_writing_attr(g, '_state')
+        stops = nodes_calling(g, '_stop_timer')
+        starts = nodes_calling(g, '_start_timer')
+        init_branch = [n for n in g.nodes if n.kind == 'branch' and n.polarity and
+                       norm(n.test.ast) == 'self.is_initialized()' and g.dominates(acq[0], n)]
+        ck.need(R3, init_branch, "_ctx_event: the is_initialized() branch was not recognised")
+        p = g.path_avoiding(init_branch[0], state_w, avoid=stops)
+        ck.ob(R3, f"{ctx.fid} :: stop before the state changes", p is None and bool(stops),
+              "an initialised FSM stops its timer before any state write" if p is None and stops else
+              "the state can change while the old state's timer keeps running (a stale timed event "
+              "would be delivered)", ctx, stops[0].ast if stops else ctx.node, witness=path_witness(g, p))
+        p = g.path_avoiding(acq[0], starts, avoid=state_w)
+        ck.ob(R3, f"{ctx.fid} :: start only after the state write", p is None,
+              "a timer is started only for the newly entered state" if p is None else
+              "a timer can be started before the new state is entered", ctx,
+              starts[0].ast if starts else ctx.node, witness=path_witness(g, p))
 
-    # ------------------------------------------------------------------ R04.4
-    callers = sorted({f.fid for f, c in call_sites(ck, '_set_timer')})
-    ok = callers == sorted([stt.fid, m['_restore_state'].fid])
-    ck.ob(R4, "who calls _set_timer", ok, f"_set_timer is called by {callers}", st, st.node)
-    g = ck.cfg(stt.fid, 'M0')
-    imm = nodes_where(g, lambda n: any(call_name(c) == 'event' and recv(c) == 'self'
-                                       for c in node_calls(n)))
-    sets = nodes_calling(g, '_set_timer')
-    both = None
-    for a in imm:
-        for b in sets:
-            both = both or g.path_avoiding(a, [b]) or g.path_avoiding(b, [a])
-    ck.ob(R4, f"{stt.fid} :: immediate delivery xor timer", both is None and bool(imm) and bool(sets),
-          "no path both delivers the timed event at once and sets a timer" if both is None else
-          "a path delivers the timed event immediately AND sets a timer (the event would fire "
-          "twice)", stt, stt.node, witness=path_witness(g, both))
-    rs = m['_restore_state']
-    g = ck.cfg(rs.fid, 'M0')
-    sets = nodes_calling(g, '_set_timer')
-    sw = nodes_writing_attr(g, '_state')
-    ok = bool(sets) and bool(sw) and all(s.id not in g.reachable_from(w) for s in sets for w in sw)
-    ck.ob(R4, f"{rs.fid} :: timer before state", ok,
-          "the restored timer is set before the state is installed (the block is uninitialised, "
-          "so no earlier timer exists)" if ok else
-          "_restore_state sets a timer after installing the state", rs, sets[0].ast if sets else rs.node)
+    with ck.section('R04.4'):
+        # ------------------------------------------------------------------ R04.4
+        callers = sorted({f.fid for f, c in call_sites(ck, '_set_timer')})
+        ok = callers == sorted([stt.fid, m['_restore_state'].fid])
+        ck.ob(R4, "who calls _set_timer", ok, f"_set_timer is called by {callers}", st, st.node)
+        g = ck.cfg(stt.fid, 'M0')
+        imm = nodes_where(g, lambda n: any(call_name(c) == 'event' and recv(c) == 'self'
+                                           for c in node_calls(n)))
+        sets = nodes_calling(g, '_set_timer')
+        both = None
+        for a in imm:
+            for b in sets:
+                both = both or g.path_avoiding(a, [b]) or g.path_avoiding(b, [a])
+        ck.ob(R4, f"{stt.fid} :: immediate delivery xor timer", both is None and bool(imm) and bool(sets),
+              "no path both delivers the timed event at once and sets a timer" if both is None else
+              "a path delivers the timed event immediately AND sets a timer (the event would fire "
+              "twice)", stt, stt.node, witness=path_witness(g, both))
+        rs = m['_restore_state']
+        g = ck.cfg(rs.fid, 'M0')
+        sets = nodes_calling(g, '_set_timer')
+        sw = nodes_writing_attr(g, '_state')
+        ok = bool(sets) and bool(sw) and all(s.id not in g.reachable_from(w) for s in sets for w in sw)
+        ck.ob(R4, f"{rs.fid} :: timer before state", ok,
+              "the restored timer is set before the state is installed (the block is uninitialised, "
+              "so no earlier timer exists)" if ok else
+              "_restore_state sets a timer after installing the state", rs, sets[0].ast if sets else rs.node)
 
-    # ------------------------------------------------------------------ R04.5
-    stop = m.get('stop')
-    ck.need(R5, stop is not None, "FSM.stop not found")
-    g = ck.cfg(stop.fid, 'M0')
-    check_must_pass(ck, R5, f"{stop.fid} :: cancels the timer", stop, g, g.entry,
-                    nodes_calling(g, '_stop_timer'), [g.exit], "FSM.stop() stops the timer")
-    superchain(ck, R5, 'stop', classes={FSM})
+    with ck.section('R04.5'):
+        # ------------------------------------------------------------------ R04.5
+        stop = m.get('stop')
+        ck.need(R5, stop is not None, "FSM.stop not found")
+        g = ck.cfg(stop.fid, 'M0')
+        check_must_pass(ck, R5, f"{stop.fid} :: cancels the timer", stop, g, g.entry,
+                        nodes_calling(g, '_stop_timer'), [g.exit], "FSM.stop() stops the timer")
+        superchain(ck, R5, 'stop', classes={FSM})
 
-    # ------------------------------------------------------------------ R04.6
-    g = ck.cfg(stt.fid, 'M0')
-    dparam, eparam = stt.node.args.args[1].arg, stt.node.args.args[2].arg
-    raises = nodes_where(g, lambda n: isinstance(n.ast, ast.Raise) and n.kinds == {'N:EdzedCircuitError'},
-                         kinds=('stmt',))
-    ok = bool(raises) and all(g.has_guard(r, f'{dparam} is None', True) for r in raises)
-    fallback = nodes_where(g, lambda n: isinstance(n.ast, ast.Assign) and
-                           norm(n.ast.value) in ('self._duration.get(self._state)',
-                                                 'self._duration[self._state]'))
-    ok = ok and bool(fallback) and all(g.dominates(fallback[0], r) for r in raises)
-    ck.ob(R6, f"{stt.fid} :: no duration at all", ok,
-          "neither an event duration nor a configured one: EdzedCircuitError" if ok else
-          "a timed state without any duration does not raise", stt, stt.node)
-    conv = nodes_where(g, lambda n: isinstance(n.ast, ast.Assign) and
-                       norm(n.ast.value) == f'utils.time_period({dparam})' and
-                       g.has_guard(n, f'{dparam} is None', False))
-    ok = bool(conv) and bool(fallback) and all(g.has_guard(f, f'{dparam} is None', True) for f in fallback)
-    ck.ob(R6, f"{stt.fid} :: per-event value wins", ok,
-          "a given duration is used (time_period); the configured one only when none is given"
-          if ok else "the event's duration does not take precedence over the configured one",
-          stt, conv[0].ast if conv else stt.node)
-    inf = [r for r in return_nodes(g) if g.has_guard(r, f'{dparam} == INF_TIME', True)]
-    forb = effect_nodes(g, calls=('event', '_set_timer', 'call_later'))
-    if inf:
-        effect_free_to(ck, R6, f"{stt.fid} :: INF_TIME", stt, g, inf, forb,
-                       "an infinite duration neither fires nor sets a timer")
-    else:
-        ck.ob(R6, f"{stt.fid} :: INF_TIME", False, "no `return` under `duration == INF_TIME`", stt, stt.node)
-    imm = nodes_where(g, lambda n: any(call_name(c) == 'event' and recv(c) == 'self'
-                                       for c in node_calls(n)))
-    okz = bool(imm)
-    for i in imm:
-        le = g.has_guard(i, f'{dparam} <= 0.0', True) or g.has_guard(i, f'{dparam} <= 0', True) or \
-            g.has_guard(i, f'{dparam} > 0.0', False) or g.has_guard(i, f'{dparam} > 0', False)
-        c = [c for c in node_calls(i) if call_name(c) == 'event'][0]
-        okz = okz and le and [norm(a) for a in c.args] == [eparam]
-    ck.ob(R6, f"{stt.fid} :: zero or negative", okz,
-          "duration <= 0 (equality included) delivers the timed event immediately (chained)"
-          if okz else "a zero duration is not delivered immediately (comparator must include "
-          "equality) or delivers a different event", stt, imm[0].ast if imm else stt.node)
-    sets = nodes_calling(g, '_set_timer')
-    okp = len(sets) == 1
-    if okp:
-        c = node_calls(sets[0], '_set_timer')[0]
-        okp = [norm(a) for a in c.args] == [dparam, eparam] and \
-            (g.has_guard(sets[0], f'{dparam} <= 0.0', False) or g.has_guard(sets[0], f'{dparam} > 0.0', True)
-             or g.has_guard(sets[0], f'{dparam} <= 0', False)) and \
-            g.has_guard(sets[0], f'{dparam} == INF_TIME', False)
-    ck.ob(R6, f"{stt.fid} :: positive finite", okp,
-          "a positive finite duration sets the timer for that duration and event" if okp else
-          "the timer is not set exactly for positive finite durations", stt,
-          sets[0].ast if sets else stt.node)
-    # copy-on-write of the class defaults
-    gi = ck.cfg(init.fid, 'M0')
-    cp = nodes_where(gi, lambda n: isinstance(n.ast, ast.Assign) and norm(n.ast.targets[0]) == 'self._duration'
-                     and norm(n.ast.value) == 'self._ct_default_duration.copy()')
-    sh = nodes_where(gi, lambda n: isinstance(n.ast, ast.Assign) and norm(n.ast.targets[0]) == 'self._duration'
-                     and norm(n.ast.value) == 'self._ct_default_duration')
-    sub = nodes_where(gi, lambda n: n.kind == 'stmt' and any(norm(t.value) == 'self._duration'
-                                                            for t, k, s in subscript_writes(n.ast)))
-    ok = len(cp) == 1 and bool(sub) and all(gi.dominates(cp[0], s) for s in sub) and \
-        all(s.id not in gi.reachable_from(x) for s in sub for x in sh)
-    ck.ob(R6, f"{init.fid} :: copy on write", ok,
-          "t_STATE overrides are written into a private copy of the class defaults" if ok else
-          "an instance's t_STATE override is written into the shared class table (it would "
-          "change all instances)", init, sub[0].ast if sub else init.node)
-    ok = bool(sub) and all(gi.has_guard(s, 'duration is not None', True) for s in sub)
-    ck.ob(R6, f"{init.fid} :: None keeps the default", ok,
-          "t_STATE=None leaves the class default in place" if ok else
-          "a None override replaces the default duration", init, sub[0].ast if sub else init.node)
-    for n_, f_ in own_nodes_writes(prog, '_ct_default_duration'):
-        ok = f_.fid == 'fsm:FSM._build_tables'
-        ck.ob(R6, f"{f_.fid} :: writes _ct_default_duration", ok,
-              "class defaults are built by _build_tables" if ok else
-              "the class default durations are modified at run time", f_, n_)
-    # the duration handed to _start_timer is the current event's item
-    g = ck.cfg(ctx.fid, 'M0')
-    for s in nodes_calling(g, '_start_timer'):
-        c = node_calls(s, '_start_timer')[0]
-        ok = [norm(a) for a in c.args] == ["data.get('duration')", 'timed_event']
-        te = ck.rdefs(ctx.fid, 'MK').value_exprs(ck.cfg(ctx.fid, 'MK').node_of(c)[0], 'timed_event') \
-            if ok else []
-        ok = ok and bool(te) and all(not isinstance(v, str) and
-                                     norm(v) in ('self._ct_timed_event[newstate]',
-                                                 'self._ct_timed_event[self._state]') for v in te)
-        ck.ob(R6, f"{ctx.fid} :: {norm1(s.ast)}", ok,
-              "the timer of the entered state gets the current event's 'duration' item and the "
-              "state's timed event" if ok else
-              "_start_timer is not called with the current event's duration and the entered "
-              "state's timed event", ctx, s.ast)
+    with ck.section('R04.6'):
+        # ------------------------------------------------------------------ R04.6
+        g = ck.cfg(stt.fid, 'M0')
+        dparam, eparam = stt.node.args.args[1].arg, stt.node.args.args[2].arg
+        raises = nodes_where(g, lambda n: isinstance(n.ast, ast.Raise) and n.kinds == {'N:EdzedCircuitError'},
+                             kinds=('stmt',))
+        ok = bool(raises) and all(g.has_guard(r, f'{dparam} is None', True) for r in raises)
+        fallback = nodes_where(g, lambda n: isinstance(n.ast, ast.Assign) and
+                               norm(n.ast.value) in ('self._duration.get(self._state)',
+                                                     'self._duration[self._state]'))
+        ok = ok and bool(fallback) and all(g.dominates(fallback[0], r) for r in raises)
+        ck.ob(R6, f"{stt.fid} :: no duration at all", ok,
+              "neither an event duration nor a configured one: EdzedCircuitError" if ok else
+              "a timed state without any duration does not raise", stt, stt.node)
+        conv = nodes_where(g, lambda n: isinstance(n.ast, ast.Assign) and
+                           norm(n.ast.value) == f'utils.time_period({dparam})' and
+                           g.has_guard(n, f'{dparam} is None', False))
+        ok = bool(conv) and bool(fallback) and all(g.has_guard(f, f'{dparam} is None', True) for f in fallback)
+        ck.ob(R6, f"{stt.fid} :: per-event value wins", ok,
+              "a given duration is used (time_period); the configured one only when none is given"
+              if ok else "the event's duration does not take precedence over the configured one",
+              stt, conv[0].ast if conv else stt.node)
+        inf = [r for r in return_nodes(g) if g.has_guard(r, f'{dparam} == INF_TIME', True)]
+        forb = effect_nodes(g, calls=('event', '_set_timer', 'call_later'))
+        if inf:
+            effect_free_to(ck, R6, f"{stt.fid} :: INF_TIME", stt, g, inf, forb,
+                           "an infinite duration neither fires nor sets a timer")
+        else:
+            ck.ob(R6, f"{stt.fid} :: INF_TIME", False, "no `return` under `duration == INF_TIME`", stt, stt.node)
+        imm = nodes_where(g, lambda n: any(call_name(c) == 'event' and recv(c) == 'self'
+                                           for c in node_calls(n)))
+        okz = bool(imm)
+        for i in imm:
+            le = g.has_guard(i, f'{dparam} <= 0.0', True) or g.has_guard(i, f'{dparam} <= 0', True) or \
+                g.has_guard(i, f'{dparam} > 0.0', False) or g.has_guard(i, f'{dparam} > 0', False)
+            c = [c for c in node_calls(i) if call_name(c) == 'event'][0]
+            okz = okz and le and [norm(a) for a in c.args] == [eparam]
+        ck.ob(R6, f"{stt.fid} :: zero or negative", okz,
+              "duration <= 0 (equality included) delivers the timed event immediately (chained)"
+              if okz else "a zero duration is not delivered immediately (comparator must include "
+              "equality) or delivers a different event", stt, imm[0].ast if imm else stt.node)
+        sets = nodes_calling(g, '_set_timer')
+        okp = len(sets) == 1
+        if okp:
+            c = node_calls(sets[0], '_set_timer')[0]
+            okp = [norm(a) for a in c.args] == [dparam, eparam] and \
+                (g.has_guard(sets[0], f'{dparam} <= 0.0', False) or g.has_guard(sets[0], f'{dparam} > 0.0', True)
+                 or g.has_guard(sets[0], f'{dparam} <= 0', False)) and \
+                g.has_guard(sets[0], f'{dparam} == INF_TIME', False)
+        ck.ob(R6, f"{stt.fid} :: positive finite", okp,
+              "a positive finite duration sets the timer for that duration and event" if okp else
+              "the timer is not set exactly for positive finite durations", stt,
+              sets[0].ast if sets else stt.node)
+        # copy-on-write of the class defaults
+        gi = ck.cfg(init.fid, 'M0')
+        cp = nodes_where(gi, lambda n: isinstance(n.ast, ast.Assign) and norm(n.ast.targets[0]) == 'self._duration'
+                         and norm(n.ast.value) == 'self._ct_default_duration.copy()')
+        sh = nodes_where(gi, lambda n: isinstance(n.ast, ast.Assign) and norm(n.ast.targets[0]) == 'self._duration'
+                         and norm(n.ast.value) == 'self._ct_default_duration')
+        sub = nodes_where(gi, lambda n: n.kind == 'stmt' and any(norm(t.value) == 'self._duration'
+                                                                for t, k, s in subscript_writes(n.ast)))
+        ok = len(cp) == 1 and bool(sub) and all(gi.dominates(cp[0], s) for s in sub) and \
+            all(s.id not in gi.reachable_from(x) for s in sub for x in sh)
+        ck.ob(R6, f"{init.fid} :: copy on write", ok,
+              "t_STATE overrides are written into a private copy of the class defaults" if ok else
+              "an instance's t_STATE override is written into the shared class table (it would "
+              "change all instances)", init, sub[0].ast if sub else init.node)
+        ok = bool(sub) and all(gi.has_guard(s, 'duration is not None', True) for s in sub)
+        ck.ob(R6, f"{init.fid} :: None keeps the default", ok,
+              "t_STATE=None leaves the class default in place" if ok else
+              "a None override replaces the default duration", init, sub[0].ast if sub else init.node)
+        for n_, f_ in own_nodes_writes(prog, '_ct_default_duration'):
+            ok = f_.fid == 'fsm:FSM._build_tables'
+            ck.ob(R6, f"{f_.fid} :: writes _ct_default_duration", ok,
+                  "class defaults are built by _build_tables" if ok else
+                  "the class default durations are modified at run time", f_, n_)
+        # the duration handed to _start_timer is the current event's item
+        g = ck.cfg(ctx.fid, 'M0')
+        for s in nodes_calling(g, '_start_timer'):
+            c = node_calls(s, '_start_timer')[0]
+            ok = [norm(a) for a in c.args] == ["data.get('duration')", 'timed_event']
+            te = ck.rdefs(ctx.fid, 'MK').value_exprs(ck.cfg(ctx.fid, 'MK').node_of(c)[0], 'timed_event') \
+                if ok else []
+            ok = ok and bool(te) and all(not isinstance(v, str) and
+                                         norm(v) in ('self._ct_timed_event[newstate]',
+                                                     'self._ct_timed_event[self._state]') for v in te)
+            ck.ob(R6, f"{ctx.fid} :: {norm1(s.ast)}", ok,
+                  "the timer of the entered state gets the current event's 'duration' item and the "
+                  "state's timed event" if ok else
+                  "_start_timer is not called with the current event's duration and the entered "
+                  "state's timed event", ctx, s.ast)
 
-    _passed_through_and_stale(ck, prog, fsm)
-    _derived_blocks(ck, prog)
+        _passed_through_and_stale(ck, prog, fsm)
+        _derived_blocks(ck, prog)
 
-    # ------------------------------------------------------------------ R04.9
-    from sa.tables import fold as _fold
-    for q in ('blocklib.fsms:Timer', 'blocklib.sblocks2:InputExp'):
-        ci = prog.cls(q)
-        mod = ci.module
-        try:
-            timers = _timers(prog, ci)
-            events = _fold(prog, mod, prog.class_value(ci, 'EVENTS'))
-        except Unfoldable as err:
-            ck.need(R9, False, f"{q}: tables not foldable ({err})")
-        problems = []
-        for state, ev in timers.items():
-            if ev is None:          # Goto
-                continue
-            if not any(e[0] == ev and (e[1] is None or state in (e[1] if isinstance(e[1], (list, tuple))
-                                                               else str(e[1]).split('|')))
-                       for e in events):
-                problems.append(f"timed event {ev!r} of state {state!r} has no transition from it")
-            if any(e[0] == ev and e[2] == state and (e[1] is None) for e in events) and \
-                    not any(e[0] == ev and e[2] != state for e in events):
-                problems.append(f"timed event {ev!r} keeps the FSM in {state!r}")
-        ck.ob(R9, q, not problems, f"timers {timers} agree with the transitions" if not problems
-              else '; '.join(problems), None, f"{mod.path}:{ci.node.lineno}")
+    with ck.section('R04.9'):
+        # ------------------------------------------------------------------ R04.9
+        from sa.tables import fold as _fold
+        for q in ('blocklib.fsms:Timer', 'blocklib.sblocks2:InputExp'):
+            ci = prog.cls(q)
+            mod = ci.module
+            try:
+                timers = _timers(prog, ci)
+                events = _fold(prog, mod, prog.class_value(ci, 'EVENTS'))
+            except Unfoldable as err:
+                ck.need(R9, False, f"{q}: tables not foldable ({err})")
+            problems = []
+            for state, ev in timers.items():
+                if ev is None:          # Goto
+                    continue
+                if not any(e[0] == ev and (e[1] is None or state in (e[1] if isinstance(e[1], (list, tuple))
+                                                                   else str(e[1]).split('|')))
+                           for e in events):
+                    problems.append(f"timed event {ev!r} of state {state!r} has no transition from it")
+                if any(e[0] == ev and e[2] == state and (e[1] is None) for e in events) and \
+                        not any(e[0] == ev and e[2] != state for e in events):
+                    problems.append(f"timed event {ev!r} keeps the FSM in {state!r}")
+            ck.ob(R9, q, not problems, f"timers {timers} agree with the transitions" if not problems
+                  else '; '.join(problems), None, f"{mod.path}:{ci.node.lineno}")
 
 
 def _passed_through_and_stale(ck, prog, fsm):
